@@ -99,6 +99,45 @@ void pair_oa23(const ArithC &c, vf::Obs &o, size_t oa, size_t ob) {
   with_order<1>(oa - 2, [&](auto A) { with_order<3>(ob, [&](auto B) { pair_T<decltype(A)::value + 2, decltype(B)::value>(c, o); }); });
 }
 #endif
+// ---- high spline orders (the shipped examples use order 10): arithmetic, primitive operators and forms, exact
+template <size_t oa, size_t ob>
+static void high_T(const ArithC &c, vf::Obs &o) {
+  namespace bo = bspline::operators;
+  namespace bi = bspline::integration;
+  auto grid = make_grid<Q>(c.g);
+  const auto a = make_spline<Q, oa>(grid, c.a);
+  const auto b = make_spline<Q, ob>(grid, c.b);
+  ref::Fn fa = model_of(c.g, c.a, oa), fb = model_of(c.g, c.b, ob);
+  o.cls("orders:" + std::to_string(oa) + "," + std::to_string(ob));
+  o.cls(std::string("placement:") + placement_name(classify_pair(c.a.s, c.a.e, c.b.s, c.b.e)));
+  o.nt(c.a.e - c.a.s >= 2 && c.b.e - c.b.s >= 2);
+  SAME_FN(o, (a + b), ref::add(fa, fb), "a+b");
+  SAME_FN(o, (b - a), ref::sub(fb, fa), "b-a");
+  SAME_FN(o, (a * b), ref::mul(fa, fb), "a*b");
+  if constexpr (ob <= oa) { auto t = a; t += b; t -= b; t -= b; SAME_FN(o, t, ref::sub(fa, fb), "a+=b,-=b,-=b"); }
+  SAME_FN(o, (bo::Dx<3>{} * a), ref::deriv(fa, 3), "Dx<3>*a");
+  SAME_FN(o, (bo::X<2>{} * a), ref::mulx(fa, 2), "X<2>*a");
+  SAME_FN(o, ((bo::X<1>{} * bo::Dx<1>{} - bo::Dx<1>{} * bo::X<1>{}) * a), ref::scale(fa, R(-1)), "(X Dx - Dx X) a");
+  VCHECK(o, vq::raw(bi::LinearForm{bo::X<1>{}}(a)) == ref::integral(ref::mulx(fa, 1)), "LinearForm{X<1>} inexact at order " << oa);
+  VCHECK(o, vq::raw(bi::ScalarProduct{}(a, b)) == ref::integral(ref::mul(fa, fb)), "ScalarProduct inexact at orders " << oa << "," << ob);
+  VCHECK(o, vq::raw(bi::BilinearForm{bo::Dx<1>{}, bo::Dx<1>{}}(a, b)) == ref::integral(ref::mul(ref::deriv(fa, 1), ref::deriv(fb, 1))), "BilinearForm{Dx,Dx} inexact at orders " << oa << "," << ob);
+  VCHECK(o, vq::raw(bi::BilinearForm{bo::X<2>{}}(a, b)) == ref::integral(ref::mul(fa, ref::mulx(fb, 2))), "BilinearForm{X<2>} inexact at orders " << oa << "," << ob);
+  if (c.a.e - c.a.s >= 2) {
+    R x = (fa.grid[(size_t)c.a.s] + fa.grid[(size_t)c.a.s + 1] * 2) / 3;
+    VCHECK(o, vq::raw(a(vq::make(x))) == ref::eval(fa.piece[(size_t)c.a.s], x), "evaluation inexact at order " << oa);
+  }
+}
+void high_order(const ArithC &c, vf::Obs &o);
+#if PART(3)
+void high_order(const ArithC &c, vf::Obs &o) {
+  switch (((c.oa % 3) + 3) % 3) {
+    case 0: high_T<10, 10>(c, o); break;
+    case 1: high_T<10, 2>(c, o); break;
+    default: high_T<7, 4>(c, o); break;
+  }
+}
+#endif
+
 #if PART(0)
 static void check_pair(const ArithC &c, vf::Obs &o) {
   size_t oa = (size_t)std::min<i64>(std::max<i64>(c.oa, 0), 3), ob = (size_t)std::min<i64>(std::max<i64>(c.ob, 0), 3);
@@ -259,6 +298,16 @@ int main(int argc, char **argv) {
     return c;
   });
   vf::add_sub<ArithC>("pairs", 2500, genpair, check_pair);
+  auto genhigh = rc::gen::exec([] {
+    ArithC c;
+    GridOpt go; go.max_n = 7;
+    c.g = gen_grid(go);
+    c.oa = pick(0, 2);
+    gen_pair(c.g.n(), gen_placement(), c.a.s, c.a.e, c.b.s, c.b.e);
+    gen_coeffs(c.a, 10); gen_coeffs(c.b, 10);
+    return c;
+  });
+  vf::add_sub<ArithC>("high-order", 300, genhigh, high_order);
   vf::add_sub<LinC>("linear-combination", 1500, genlin, check_lin);
   vf::add_sub<HistC>("inplace-history", 1500, genhist, check_hist);
   return vf::main_impl(argc, argv, "C03");
